@@ -56,6 +56,9 @@ vars == <<clock, dsInc, nextInc, deletedInc, purgedInc, feed, nextPos,
 \* That environment step changes no abstract state, yet what follows it must still be explored.
 view == <<clock, dsInc, nextInc, deletedInc, purgedInc, feed, nextPos,
           everStored, metaOf, rd, bk, \E i \in 1..Len(hist) : hist[i].a = "lsm",
+          \* ... whether the hub was restarted in the last step (a restart changes no abstract state: without this
+          \* bit TLC would only ever put a restart at the END of a history)
+          IF hist = <<>> THEN FALSE ELSE hist[Len(hist)].a = "restart",
           \* ... and how many batches were refused (they change no answer either; which one it was is left to
           \* the first history found)
           Cardinality({ i \in 1..Len(hist) : hist[i].a = "reject" })>>
